@@ -6,6 +6,7 @@ import (
 	"io"
 	"math"
 	"net"
+	"sync"
 	"sync/atomic"
 	"time"
 )
@@ -59,6 +60,12 @@ func NetConn(ctx context.Context, c *Conn, msgType MessageType) net.Conn {
 	nc.readCtx, nc.readCancel = context.WithCancel(ctx)
 
 	nc.writeTimer = time.AfterFunc(math.MaxInt64, func() {
+		nc.writeDeadlineMu.Lock()
+		defer nc.writeDeadlineMu.Unlock()
+		if !deadlinePassed(nc.writeDeadline) {
+			// The deadline was reset after the timer fired.
+			return
+		}
 		if !nc.writeMu.tryLock() {
 			// If the lock cannot be acquired, then there is an
 			// active write goroutine and so we should cancel the context.
@@ -75,6 +82,12 @@ func NetConn(ctx context.Context, c *Conn, msgType MessageType) net.Conn {
 	}
 
 	nc.readTimer = time.AfterFunc(math.MaxInt64, func() {
+		nc.readDeadlineMu.Lock()
+		defer nc.readDeadlineMu.Unlock()
+		if !deadlinePassed(nc.readDeadline) {
+			// The deadline was reset after the timer fired.
+			return
+		}
 		if !nc.readMu.tryLock() {
 			// If the lock cannot be acquired, then there is an
 			// active read goroutine and so we should cancel the context.
@@ -101,6 +114,14 @@ type netConn struct {
 
 	c       *Conn
 	msgType MessageType
+
+	// The timers can fire while their deadline is being reset. The mutexes make
+	// them run either before the reset, which clears what they did, or after
+	// it, when they see that the deadline they were set for is no longer current.
+	writeDeadlineMu sync.Mutex
+	writeDeadline   time.Time
+	readDeadlineMu  sync.Mutex
+	readDeadline    time.Time
 
 	writeTimer  *time.Timer
 	writeMu     *mu
@@ -209,6 +230,9 @@ func (nc *netConn) SetDeadline(t time.Time) error {
 }
 
 func (nc *netConn) SetWriteDeadline(t time.Time) error {
+	nc.writeDeadlineMu.Lock()
+	defer nc.writeDeadlineMu.Unlock()
+	nc.writeDeadline = t
 	atomic.StoreInt64(&nc.writeExpired, 0)
 	if t.IsZero() {
 		nc.writeTimer.Stop()
@@ -223,6 +247,9 @@ func (nc *netConn) SetWriteDeadline(t time.Time) error {
 }
 
 func (nc *netConn) SetReadDeadline(t time.Time) error {
+	nc.readDeadlineMu.Lock()
+	defer nc.readDeadlineMu.Unlock()
+	nc.readDeadline = t
 	atomic.StoreInt64(&nc.readExpired, 0)
 	if t.IsZero() {
 		nc.readTimer.Stop()
@@ -234,4 +261,9 @@ func (nc *netConn) SetReadDeadline(t time.Time) error {
 		nc.readTimer.Reset(dur)
 	}
 	return nil
+}
+
+// deadlinePassed reports whether the deadline t is set and has passed.
+func deadlinePassed(t time.Time) bool {
+	return !t.IsZero() && !time.Now().Before(t)
 }
